@@ -67,19 +67,24 @@ def construct(B, G, n, h, a):
     rt = O.lit(float(np.sqrt(n)))
     # ---- sizes given ------------------------------------------------------------------------------------------------
     for kind in ("positive", "complex", "mixed"):
-        for (hh, aa) in ((None, None), (h, a), (h, None), (None, a)):
+        # gpu=True is legal without CUDA (the library warns and stays on the CPU): same contract
+        for (hh, aa, gpu) in ((None, None, False), (h, a, False), (h, None, False), (None, a, False), (h, a, True)):
             if kind != "mixed" and aa is not None and hh is None:
                 continue
             if kind != "mixed" and aa is None and hh is not None:
                 continue
             del log[:]
-            if kind == "positive":
-                st = nn.PositiveWaveFunction(n, hh, gpu=False)
-            elif kind == "complex":
-                st = nn.ComplexWaveFunction(n, hh, gpu=False)
-            else:
-                st = nn.DensityMatrix(n, hh, aa, gpu=False)
-            tag = "%s(%d,%s,%s)" % (kind, n, hh, aa)
+            import warnings
+
+            with warnings.catch_warnings():
+                warnings.simplefilter("ignore")
+                if kind == "positive":
+                    st = nn.PositiveWaveFunction(n, hh, gpu=gpu)
+                elif kind == "complex":
+                    st = nn.ComplexWaveFunction(n, hh, gpu=gpu)
+                else:
+                    st = nn.DensityMatrix(n, hh, aa, gpu=gpu)
+            tag = "%s(%d,%s,%s%s)" % (kind, n, hh, aa, ",gpu=True" if gpu else "")
             eh, ea = (hh if hh else n), (aa if aa else n)
             nets = [getattr(st, x) for x in st.networks]
             G.fact(tag + ".sizes", st.num_visible == n and st.num_hidden == eh and (kind != "mixed" or st.num_aux == ea), "nv %s nh %s" % (st.num_visible, st.num_hidden))
@@ -166,13 +171,17 @@ def construct(B, G, n, h, a):
                 made[0] += 1
 
         before = [B.scalars(p).copy() for net in st.networks for p in getattr(st, net).parameters()]
-        try:
-            st.fit(C.rows_tensor(B, [[0, 1], [1, 1]]), epochs=1, pos_batch_size=1, optimizer=Opt)
-            G.fact("%s.fit_without_bases_refused" % kind, False, "no exception")
-        except ValueError:
-            after = [B.scalars(p) for net in st.networks for p in getattr(st, net).parameters()]
-            same = all(np.array_equal(x, y) for x, y in zip(before, after))
-            G.fact("%s.fit_without_bases_refused" % kind, same and made[0] == 0, "parameters unchanged %s, optimizer activity %d" % (same, made[0]))
+        # fresh state, and the same state with the stop flag still set by an earlier, early-stopped run
+        for phase in ("fresh", "after_a_stopped_run"):
+            if phase == "after_a_stopped_run":
+                st.stop_training = True
+            try:
+                st.fit(C.rows_tensor(B, [[0, 1], [1, 1]]), epochs=1, pos_batch_size=1, optimizer=Opt)
+                G.fact("%s.fit_without_bases_refused(%s)" % (kind, phase), False, "no exception")
+            except ValueError:
+                after = [B.scalars(p) for net in st.networks for p in getattr(st, net).parameters()]
+                same = all(np.array_equal(x, y) for x, y in zip(before, after))
+                G.fact("%s.fit_without_bases_refused(%s)" % (kind, phase), same and made[0] == 0, "parameters unchanged %s, optimizer activity %d" % (same, made[0]))
     G.twin("twin_weight_scale", entries(B, nn.PositiveWaveFunction(n, h, gpu=False).rbm_am.weights)[0], 2 * entries(B, B.tensor(log[-1]))[0])
 
 
